@@ -160,7 +160,7 @@ def prepare_group(group):
     (TARGETS / (ALT + group)).mkdir(parents=True, exist_ok=True)
 
 
-CHECK_RE = re.compile(r"^Check (\d+): (\S+)\n\t - Status: (\w+)\n\t - Description: \"(.*)\"(?:\n\t - Location: (.*))?", re.M)
+CHECK_RE = re.compile(r"^Check (\d+): ([^\n]+)\n\t - Status: (\w+)\n\t - Description: \"(.*)\"(?:\n\t - Location: (.*))?", re.M)
 
 
 def parse_log(text):
